@@ -614,6 +614,31 @@ class Repo:
                 return {'frozenset': frozenset, 'set': frozenset, 'tuple': tuple, 'list': list}[fn](v)
             if fn == 'len' and len(node.args) == 1:
                 return len(f(node.args[0]))
+            if fn == 'enumerate' and 1 <= len(node.args) <= 2:
+                seq = f(node.args[0])
+                start = f(node.args[1]) if len(node.args) == 2 else next((f(k.value) for k in node.keywords if k.arg == 'start'), 0)
+                if isinstance(seq, dict):
+                    seq = list(seq.keys())
+                if isinstance(seq, (list, tuple, str, bytes)) and isinstance(start, int):
+                    return [(start + i, x) for i, x in enumerate(seq)]
+                raise NotConstant('enumerate')
+            if fn == 'zip' and node.args and not node.keywords:
+                seqs = [f(a) for a in node.args]
+                seqs = [list(q.keys()) if isinstance(q, dict) else q for q in seqs]
+                if all(isinstance(q, (list, tuple, str, bytes)) for q in seqs):
+                    return [tuple(t) for t in zip(*seqs)]
+                raise NotConstant('zip')
+            if fn == 'dict' and len(node.args) <= 1:
+                base = f(node.args[0]) if node.args else {}
+                try:
+                    out = dict(base)
+                except (TypeError, ValueError):
+                    raise NotConstant('dict(arg)')
+                for k in node.keywords:
+                    if k.arg is None:
+                        raise NotConstant('dict(**x)')
+                    out[k.arg] = f(k.value)
+                return out
             if fn == 'range' and 1 <= len(node.args) <= 3 and not node.keywords:
                 vs = [f(a) for a in node.args]
                 if all(isinstance(v, int) and not isinstance(v, bool) for v in vs) and len(range(*vs)) <= 100000:
